@@ -152,9 +152,10 @@ fn finish<E: IGlue>(m: &IterModel, st: &mut St<E::It>) -> Result<(), (String, St
         let mut want_rev = want_fwd.clone();
         want_rev.reverse();
         // (bounded walks first: the unbounded consumers only run on an iterator that was seen to end)
+        let bound = m.enabled.len().max(56) + 8;
         let walks = catch(|| {
-            let fwd: Vec<usize> = it.clone().take(64).map(|v| v.idx()).collect();
-            let rev: Vec<usize> = it.clone().rev().take(64).map(|v| v.idx()).collect();
+            let fwd: Vec<usize> = it.clone().take(bound).map(|v| v.idx()).collect();
+            let rev: Vec<usize> = it.clone().rev().take(bound).map(|v| v.idx()).collect();
             (fwd, rev)
         });
         match &walks {
@@ -193,8 +194,8 @@ fn finish<E: IGlue>(m: &IterModel, st: &mut St<E::It>) -> Result<(), (String, St
         let mut guard = 0;
         loop {
             guard += 1;
-            if guard > 64 {
-                return Err(("does-not-terminate".into(), "exhaustion".into(), "more than 64 items".into()));
+            if guard > m.enabled.len().max(56) + 8 {
+                return Err(("does-not-terminate".into(), "exhaustion".into(), format!("more than {} items", m.enabled.len().max(56) + 8)));
             }
             let back = n % 2 == 1 && guard % 2 == 0;
             let (got, want) = if back { (catch(|| it.next_back()), md.next_back()) } else { (catch(|| it.next()), md.next()) };
@@ -233,6 +234,11 @@ fn run_history<E: IGlue>(m: &IterModel, h: &[Op]) -> Result<(), (String, String,
 fn alphabet(n: usize, huge: bool) -> Vec<Op> {
     let mut a = vec![Op::Next, Op::NextBack];
     let mut ks: Vec<usize> = (0..=n + 1).collect();
+    if n > 12 {
+        // large enums: both ends, the middle and one past the end instead of every argument
+        ks = vec![0, 1, 2, 3, n / 3, n / 2, n - 2, n - 1, n, n + 1];
+        ks.dedup();
+    }
     if huge {
         ks.push(usize::MAX - 1);
         ks.push(usize::MAX);
@@ -339,35 +345,33 @@ fn apply_model(a: &[Adapter], n: usize) -> Vec<usize> {
     v
 }
 
-fn apply_impl<E: IGlue>(a: &[Adapter]) -> Vec<usize> {
+fn apply_impl<E: IGlue>(a: &[Adapter], lim: usize) -> Vec<usize> {
     // the adapters run on the derived iterator itself (skip/step_by call nth, rev calls next_back,
     // rev after skip/step_by needs len()); items are mapped to positions only at the end
-    fn collect<E: Glue, I: Iterator<Item = E>>(i: I) -> Vec<usize> {
-        i.take(40).map(|v| v.idx()).collect()
-    }
-    let it = E::iter();
+    let collect = |i: &mut dyn Iterator<Item = E>| -> Vec<usize> { i.take(lim).map(|v| v.idx()).collect() };
+    let mut it = E::iter();
     match a {
-        [] => collect(it),
-        [Adapter::Skip(k)] => collect(it.skip(*k)),
-        [Adapter::StepBy(k)] => collect(it.step_by(*k)),
-        [Adapter::Rev] => collect(it.rev()),
-        [Adapter::Take(k)] => collect(it.take(*k)),
-        [Adapter::Skip(k), Adapter::Skip(j)] => collect(it.skip(*k).skip(*j)),
-        [Adapter::Skip(k), Adapter::StepBy(j)] => collect(it.skip(*k).step_by(*j)),
-        [Adapter::Skip(k), Adapter::Rev] => collect(it.skip(*k).rev()),
-        [Adapter::Skip(k), Adapter::Take(j)] => collect(it.skip(*k).take(*j)),
-        [Adapter::StepBy(k), Adapter::Skip(j)] => collect(it.step_by(*k).skip(*j)),
-        [Adapter::StepBy(k), Adapter::StepBy(j)] => collect(it.step_by(*k).step_by(*j)),
-        [Adapter::StepBy(k), Adapter::Rev] => collect(it.step_by(*k).rev()),
-        [Adapter::StepBy(k), Adapter::Take(j)] => collect(it.step_by(*k).take(*j)),
-        [Adapter::Rev, Adapter::Skip(j)] => collect(it.rev().skip(*j)),
-        [Adapter::Rev, Adapter::StepBy(j)] => collect(it.rev().step_by(*j)),
-        [Adapter::Rev, Adapter::Rev] => collect(it.rev().rev()),
-        [Adapter::Rev, Adapter::Take(j)] => collect(it.rev().take(*j)),
-        [Adapter::Take(k), Adapter::Skip(j)] => collect(it.take(*k).skip(*j)),
-        [Adapter::Take(k), Adapter::StepBy(j)] => collect(it.take(*k).step_by(*j)),
-        [Adapter::Take(k), Adapter::Rev] => collect(it.take(*k).rev()),
-        [Adapter::Take(k), Adapter::Take(j)] => collect(it.take(*k).take(*j)),
+        [] => collect(&mut it),
+        [Adapter::Skip(k)] => collect(&mut it.skip(*k)),
+        [Adapter::StepBy(k)] => collect(&mut it.step_by(*k)),
+        [Adapter::Rev] => collect(&mut it.rev()),
+        [Adapter::Take(k)] => collect(&mut it.take(*k)),
+        [Adapter::Skip(k), Adapter::Skip(j)] => collect(&mut it.skip(*k).skip(*j)),
+        [Adapter::Skip(k), Adapter::StepBy(j)] => collect(&mut it.skip(*k).step_by(*j)),
+        [Adapter::Skip(k), Adapter::Rev] => collect(&mut it.skip(*k).rev()),
+        [Adapter::Skip(k), Adapter::Take(j)] => collect(&mut it.skip(*k).take(*j)),
+        [Adapter::StepBy(k), Adapter::Skip(j)] => collect(&mut it.step_by(*k).skip(*j)),
+        [Adapter::StepBy(k), Adapter::StepBy(j)] => collect(&mut it.step_by(*k).step_by(*j)),
+        [Adapter::StepBy(k), Adapter::Rev] => collect(&mut it.step_by(*k).rev()),
+        [Adapter::StepBy(k), Adapter::Take(j)] => collect(&mut it.step_by(*k).take(*j)),
+        [Adapter::Rev, Adapter::Skip(j)] => collect(&mut it.rev().skip(*j)),
+        [Adapter::Rev, Adapter::StepBy(j)] => collect(&mut it.rev().step_by(*j)),
+        [Adapter::Rev, Adapter::Rev] => collect(&mut it.rev().rev()),
+        [Adapter::Rev, Adapter::Take(j)] => collect(&mut it.rev().take(*j)),
+        [Adapter::Take(k), Adapter::Skip(j)] => collect(&mut it.take(*k).skip(*j)),
+        [Adapter::Take(k), Adapter::StepBy(j)] => collect(&mut it.take(*k).step_by(*j)),
+        [Adapter::Take(k), Adapter::Rev] => collect(&mut it.take(*k).rev()),
+        [Adapter::Take(k), Adapter::Take(j)] => collect(&mut it.take(*k).take(*j)),
         _ => unreachable!(),
     }
 }
@@ -403,7 +407,7 @@ fn check_adapters<E: IGlue>(ctx: &mut Ctx, m: &IterModel) {
         cnt += 1;
         ctx.eval();
         let want: Vec<usize> = apply_model(&c, n).into_iter().map(|p| m.enabled[p]).collect();
-        let got = catch(|| apply_impl::<E>(&c));
+        let got = catch(|| apply_impl::<E>(&c, n.max(32) + 8));
         ctx.nontrivial(format!("adapters{:?}", c).as_bytes());
         match got {
             Ok(g) if g == want => {}
